@@ -339,7 +339,7 @@ func runC15(r *ev.Run) {
 	r.Nontrivial.Store(states.Load())
 	r.Set("product_cases", prod)
 	r.Set("distinct_outcomes", map[string]int64{"evictions_observed": evictions.Load(), "probe_hits_checked": hits.Load()})
-	r.Set("rule", "explicit-state BFS over operation sequences on the real Table (alphabet: Insert of 10 keys built to share bucket and/or signature x 8 parameter sets on the rule boundaries, Clear, Resize+Clear to 32/64/96/32000 bytes, Resize without Clear (memory safety of continued use only)), successors by replay on a fresh table, states de-duplicated by table digest; after EVERY operation all keys are probed at plies 0,1,63 and compared with the reference model; plus complete products: mate re-basing for every value x store ply x probe ply, the two-store interaction for all depth pairs x types x generations x moves, bucket overflow for depth/generation patterns, lane matching over lane alphabets x all 2^16 keys")
+	r.Set("rule", "explicit-state BFS over operation sequences on the real Table (alphabet: Insert of 10 keys built to share bucket and/or signature x 8 parameter sets on the rule boundaries, Clear, Resize+Clear to 32/64/96/32000 bytes, Resize without Clear (memory safety of continued use only)), successors by replay on a fresh table, states de-duplicated by table digest; the same search run to its fix-point (no new table state) on a one-bucket table over five keys of one bucket plus the all-zero-signature key x three parameter sets; after EVERY operation all keys are probed at plies 0,1,63 and compared with the reference model; plus complete products: mate re-basing for every value x store ply x probe ply, the two-store interaction for all depth pairs x types x generations x moves, bucket overflow for depth/generation patterns, lane matching over lane alphabets x all 2^16 keys")
 	r.Assume("bucket membership is asked of the implementation (verif hook VerifBucketIx), signature = top 16 bits as stated by the property")
 	r.Assume("for the exact boundary value +-(Inf-MaxPlies) both readings (mate distance, plain score) are accepted; the contents after a resize without clear are not judged; keys with an all-zero signature are excluded from the no-phantom clause")
 }
